@@ -9,6 +9,7 @@ package mgmtsim
 import (
 	"encoding/json"
 	"fmt"
+	"math"
 	"runtime"
 	"sort"
 	"strings"
@@ -80,6 +81,7 @@ type Op struct {
 	Garble  int    `json:"garble,omitempty"`    // >0: ControlParameters bytes corrupted (truncated to Garble-1 bytes / flipped)
 	NextHop bool   `json:"nexthop,omitempty"`   // LpPacket carries NextHopFaceId = internal face
 	Name    string `json:"name,omitempty"`      // traffic: Interest name
+	Shuffle int    `json:"shuffle,omitempty"`   // >0: the fields of the ControlParameters are sent in another order (the protocol fixes none)
 	GapMs   int    `json:"gap_ms,omitempty"`    // NoCache only: simulated time that passes after this step (0 = 5000)
 	// Mut != "": the encoded ControlParameters are corrupted in transit by one structure-aware mutation
 	// (facesim.Mutate: length fields, truncation, bit flips, type confusion, insertion)
@@ -98,7 +100,8 @@ var ribNames = []string{"/r", "/r/a", "/r/a/b", "/r/c", "/r2"}
 var fibNames = []string{"/f", "/f/a", "/f/a/b", "/f2"}
 var stratNames = []string{"/", "/r", "/r/a", "/f", "/s/x"}
 var stratVals = []string{"/localhost/nfd/strategy/best-route", "/localhost/nfd/strategy/multicast/v=1", "/localhost/nfd/strategy/best-route/v=1",
-	"/localhost/nfd/strategy", "/localhost/nfd/strategy/nosuch", "/localhost/nfd/strategy/multicast/v=9", "/example/strategy/best-route", "/localhost/nfd/strategy/best-route/x"}
+	"/localhost/nfd/strategy", "/localhost/nfd/strategy/nosuch", "/localhost/nfd/strategy/multicast/v=9", "/example/strategy/best-route", "/localhost/nfd/strategy/best-route/x",
+	"/localhost/nfd/strategy/multicast/v=1/extra", "/localhost/nfd/strategy/best-route/v=1/v=1"}
 
 func (Engine) Generate(prop string, r *kit.Rand, tier string) *kit.Scenario[Config, Op] {
 	sc := &kit.Scenario[Config, Op]{}
@@ -178,6 +181,9 @@ func (Engine) Generate(prop string, r *kit.Rand, tier string) *kit.Scenario[Conf
 			o.Verb = "config"
 			if r.Chance(0.8) {
 				o.P.Capacity = u(uint64(kit.Pick(r, []int{0, 1, 10, 1024, 65535})))
+				if r.Chance(0.15) {
+					o.P.Capacity = u(kit.Pick(r, []uint64{1<<31 - 1, 1 << 31, 1<<32 - 1, 1 << 32, 1<<63 - 1, 1 << 63, 1<<63 + 1, 1<<64 - 1}))
+				}
 			}
 			if r.Chance(0.2) {
 				o.P.Flags = u(3)
@@ -238,6 +244,9 @@ func (Engine) Generate(prop string, r *kit.Rand, tier string) *kit.Scenario[Conf
 			if r.Chance(0.04) {
 				o.P.NoName = true
 			}
+			if r.Chance(0.25) {
+				o.Shuffle = 1 + r.Intn(1<<16)
+			}
 		}
 		if c.NoCache && r.Chance(0.6) {
 			o.GapMs = kit.Pick(r, []int{1, 100, 500, 999, 1001, 3000})
@@ -247,21 +256,7 @@ func (Engine) Generate(prop string, r *kit.Rand, tier string) *kit.Scenario[Conf
 			mutP = 0.7
 		}
 		if o.Op == "cmd" && !o.NoParam && r.Chance(mutP) {
-			huge := []uint64{0, 1, 2, 127, 252, 253, 254, 255, 256, 65535, 65536, 1 << 31, 1<<32 - 1, 1 << 32, 1<<63 - 1, 1 << 63, 1<<64 - 1}
-			switch r.Weighted([]int{4, 5, 2, 3, 3, 2}) {
-			case 0:
-				o.Mut, o.At, o.Val = "len", r.Intn(32), kit.Pick(r, huge)
-			case 1:
-				o.Mut, o.At, o.Val = "lenfix", r.Intn(32), kit.Pick(r, huge)
-			case 2:
-				o.Mut, o.At = "trunc", r.Intn(200)
-			case 3:
-				o.Mut, o.At, o.Val = "flip", r.Intn(200), uint64(1+r.Intn(255))
-			case 4:
-				o.Mut, o.At, o.Val = "type", r.Intn(32), uint64(r.Intn(256))
-			case 5:
-				o.Mut, o.At, o.Val = "insert", r.Intn(200), uint64(r.Intn(1<<16))
-			}
+			o.Mut, o.At, o.Val = facesim.GenMut(r, 32, 200)
 		}
 		sc.Ops = append(sc.Ops, o)
 	}
@@ -301,6 +296,9 @@ func (Engine) Simplify(sc *kit.Scenario[Config, Op]) []*kit.Scenario[Config, Op]
 		}
 		if o.Garble != 0 {
 			mod(i, func(o *Op) { o.Garble = 0 })
+		}
+		if o.Shuffle != 0 {
+			mod(i, func(o *Op) { o.Shuffle = 0 })
 		}
 		if o.P.Cost != nil {
 			mod(i, func(o *Op) { o.P.Cost = nil })
@@ -479,6 +477,7 @@ type runner struct {
 	outbox    [][][]byte // frames sent to each application face
 	step      int
 	seq       int
+	mgmtFace  face.LinkService
 }
 
 func (e Engine) Run(t *testing.T, ctx *kit.Ctx, sc *kit.Scenario[Config, Op]) *kit.Result {
@@ -559,6 +558,7 @@ func (r *runner) setup() {
 	m.faces[1] = &faceM{exists: true, scope: defn.Local, mtu: defn.MaxNDNPacketSize, localFields: true}
 	if f1 := face.FaceTable.Get(1); f1 != nil {
 		m.faces[1].pers = f1.Persistency()
+		r.mgmtFace = f1
 	}
 	r.outbox = make([][][]byte, len(c.Faces))
 	for i, fc := range c.Faces {
@@ -599,6 +599,12 @@ func (r *runner) shutdown() {
 	// Faces are torn down one at a time: concurrent teardown (each face's send
 	// goroutine cleans the unlocked RIB) is C16's subject, not this engine's.
 	fs := face.FaceTable.GetAll()
+	if r.mgmtFace != nil && face.FaceTable.Get(1) == nil {
+		// a (corrupted) faces/destroy took management's own face out of the table: the face itself is still
+		// running (destroy does not close it) and is closed here like the others
+		fs = append(fs, r.mgmtFace)
+	}
+	r.mgmtFace = nil
 	sort.Slice(fs, func(i, j int) bool { return fs[i].FaceID() > fs[j].FaceID() })
 	for _, f := range fs {
 		f.Close()
@@ -684,6 +690,54 @@ func (r *runner) modelString() string {
 	return "fib{" + mapStr(m.expectedFib()) + "} rib{" + mapStr(m.ribStr()) + "} strat{" + mapStr(m.strat) + "} cs=" + fmt.Sprint(m.csCap) + " faces{" + strings.Join(fs, " ") + "}"
 }
 
+// shuffleFields re-orders the fields inside a ControlParameters block (a valid encoding of the same parameters: the
+// management protocol does not prescribe an order).
+func shuffleFields(b []byte, seed int) []byte {
+	rd := func(p []byte) (uint64, int) {
+		switch {
+		case len(p) >= 1 && p[0] <= 0xfc:
+			return uint64(p[0]), 1
+		case len(p) >= 3 && p[0] == 0xfd:
+			return uint64(p[1])<<8 | uint64(p[2]), 3
+		case len(p) >= 5 && p[0] == 0xfe:
+			return uint64(p[1])<<24 | uint64(p[2])<<16 | uint64(p[3])<<8 | uint64(p[4]), 5
+		}
+		return 0, 0
+	}
+	_, tl := rd(b)
+	if tl == 0 {
+		return b
+	}
+	l, ll := rd(b[tl:])
+	if ll == 0 || int(l) != len(b)-tl-ll {
+		return b
+	}
+	body := b[tl+ll:]
+	var fields [][]byte
+	for off := 0; off < len(body); {
+		_, ftl := rd(body[off:])
+		if ftl == 0 {
+			return b
+		}
+		fl, fll := rd(body[off+ftl:])
+		if fll == 0 || off+ftl+fll+int(fl) > len(body) {
+			return b
+		}
+		fields = append(fields, body[off:off+ftl+fll+int(fl)])
+		off += ftl + fll + int(fl)
+	}
+	rr := kit.NewRand(uint64(seed))
+	for i := len(fields) - 1; i > 0; i-- {
+		j := rr.Intn(i + 1)
+		fields[i], fields[j] = fields[j], fields[i]
+	}
+	out := append([]byte(nil), b[:tl+ll]...)
+	for _, f := range fields {
+		out = append(out, f...)
+	}
+	return out
+}
+
 func (r *runner) encodeParams(o *Op) []byte {
 	a := &mgmt.ControlArgs{FaceId: o.P.FaceId, Origin: o.P.Origin, Cost: o.P.Cost, Flags: o.P.Flags, Mask: o.P.Mask,
 		Capacity: o.P.Capacity, Mtu: o.P.Mtu, FacePersistency: o.P.Persistency}
@@ -697,6 +751,9 @@ func (r *runner) encodeParams(o *Op) []byte {
 		a.Uri = utils.IdPtr(o.P.Uri)
 	}
 	b := (&mgmt.ControlParameters{Val: a}).Encode().Join()
+	if o.Shuffle > 0 {
+		b = shuffleFields(b, o.Shuffle)
+	}
 	if o.Mut != "" {
 		r.ctx.Fault("corrupt-control-parameters-" + o.Mut)
 		return facesim.Mutate(b, o.Mut, o.At, o.Val)
@@ -872,7 +929,16 @@ func (r *runner) doCmd(o *Op) (int, int) {
 	}
 	name = append(name, enc.NewStringComponent(enc.TypeGenericNameComponent, o.Module), enc.NewStringComponent(enc.TypeGenericNameComponent, o.Verb))
 	if !o.NoParam {
-		name = append(name, enc.NewBytesComponent(enc.TypeGenericNameComponent, r.encodeParams(o)))
+		pb := r.encodeParams(o)
+		if o.Mut != "" && o.Module == "faces" && o.Verb == "destroy" && r.sc.Property != "C04" {
+			// a corruption can produce a perfectly valid command for another face; destroying management's own face
+			// (id 1) is the one command whose response cannot come back, so it is not sent (C04 runs do send it)
+			if p, err := mgmt.ParseControlParameters(enc.NewBufferReader(pb), true); err == nil && p.Val != nil && p.Val.FaceId != nil && *p.Val.FaceId == 1 {
+				r.ctx.Probe("corruption-would-destroy-management-face")
+				return 0, 0
+			}
+		}
+		name = append(name, enc.NewBytesComponent(enc.TypeGenericNameComponent, pb))
 		r.seq++
 		name = append(name, enc.NewStringComponent(enc.TypeGenericNameComponent, fmt.Sprintf("n%d", r.seq)))
 	}
@@ -1018,6 +1084,12 @@ func (r *runner) doCmd(o *Op) (int, int) {
 		effect = func() { delete(m.strat, o.P.Name) }
 	case o.Module == "cs" && o.Verb == "config":
 		if (o.P.Flags == nil) != (o.P.Mask == nil) {
+			want = "refuse"
+			break
+		}
+		if o.P.Capacity != nil && *o.P.Capacity > math.MaxInt64 {
+			// no table can hold that many entries: "exactly the effect its parameters describe" is impossible, the
+			// command is out of range
 			want = "refuse"
 			break
 		}
